@@ -72,7 +72,7 @@ def _meta(w: Random, d: dict) -> None:
 
 def generate(streams: core.Streams, tier: str) -> dict:
     w, s, f = streams["workload"], streams["schedule"], streams["fault"]
-    kind = gen.pick(w, ["rule", "rule", "rule", "rule", "correlation", "filtered"])
+    kind = gen.pick(w, ["rule", "rule", "rule", "rule", "correlation", "filtered", "filter"])
     special = gen.pick(w, [0.1, 0.3, 0.6])
     docs: list[dict] = []
     if kind == "rule":
@@ -111,12 +111,17 @@ def generate(streams: core.Streams, tier: str) -> dict:
     else:
         r = gen.gen_rule(w, "R0", tricky=0.1, special=special, multi_cond=0.3)
         r["name"] = "rule_0"
-        fl = gen.gen_filter(w, "F0", gen.pick(w, ["any", ["rule_0"]]), copy.deepcopy(r["logsource"]),
+        fl = gen.gen_filter(w, "F0", gen.pick(w, ["any", ["rule_0"], "rule_0", [], ["some_other_rule"], ["some_other_rule", "rule_0"]]), copy.deepcopy(r["logsource"]),
                             names=["selection", "flt", "sel_2", "1st", "_under"])
+        if kind == "filter":  # the filter object itself is written and loaded again
+            _meta(w, fl)
+            for nm in [k for k in fl["filter"] if k not in ("rules", "condition")]:
+                if gen.chance(w, 0.5):
+                    fl["filter"][nm] = gen.gen_detection(w, special=special)
         docs = [fl, r]
-        target = 1
+        target = 1 if kind == "filtered" else 0
     transformation = None
-    if gen.chance(s, 0.7):
+    if kind != "filter" and gen.chance(s, 0.7):
         pool = VALUE_KINDS * 2 + FIELD_KINDS * 2 + OTHER_KINDS
         tk = gen.pick(s, pool)
         if tk == "sim_fail_at":
@@ -163,10 +168,12 @@ def execute(scenario: dict) -> dict:
     outcome = "?"
     try:
         coll = _load(sc, sc["documents"])
+        if sc["kind"] == "filter":
+            fcoll = world.load_collection(sc["documents"], collect_filters=True)
     except Exception as e:  # not loadable: outside the property
         return {"violation": None, "log": {"load": world.exc_record(e)}, "faults": faults, "probes": {"unloadable": 1},
                 "steps": 1, "signature": "unloadable:" + type(e).__name__, "nontrivial": False}
-    x = _target(sc, coll)
+    x = fcoll.filters[0] if sc["kind"] == "filter" else _target(sc, coll)
     before = world.capture(lambda: x.to_dict())
     changed = False
     steps = 1
@@ -214,6 +221,12 @@ def execute(scenario: dict) -> dict:
         others = [d for i, d in enumerate(sc["documents"]) if i != sc["target"] and "filter" not in d]
 
         def reload() -> Any:
+            if sc["kind"] == "filter":
+                from sigma.filters import SigmaFilter
+
+                y2 = SigmaFilter.from_dict(copy.deepcopy(dumped))
+                c3 = _load(sc, [copy.deepcopy(dumped)] + copy.deepcopy(others))
+                return c3, y2
             c2 = _load(sc, copy.deepcopy(others) + [copy.deepcopy(dumped)])
             return c2, next(r for r in c2.rules if r.title == x.title)
 
